@@ -30,7 +30,7 @@ class C05Oracle(Oracle):
         return tuple(w.rets)  # type: ignore[attr-defined]
 
 
-def factory(noise: bool, seed: str, login: bool) -> LifeHarness:
+def factory(noise: bool, seed: str, login: bool, addresses: tuple[str, ...] = ("10.0.0.1",)) -> LifeHarness:
     return LifeHarness(
         noise=noise,
         seed=seed,
@@ -38,22 +38,29 @@ def factory(noise: bool, seed: str, login: bool) -> LifeHarness:
         pairs=PAIRS,
         login=login,
         oracles=(C05Oracle(),),
+        addresses=addresses,
     )
 
 
-def configs(tier: str) -> list[tuple[bool, str, bool, int, int]]:
-    out = []
+HOSTNAME = ("dev.example.com",)  # an address that needs the resolver: the start phase then has a step before any socket exists
+
+
+def configs(tier: str) -> list[tuple[Any, ...]]:
+    out: list[tuple[Any, ...]] = []
     if tier == "quick":
         for s in SEEDS_PLAIN:
             out.append((False, s, True, 3, 2))
         for s in SEEDS_NOISE:
             out.append((True, s, True, 3, 1))
+        out.append((False, "init", True, 4, 2, HOSTNAME))
     else:
         for s in SEEDS_PLAIN:
             out.append((False, s, True, 4, 2))
             out.append((False, s, False, 3, 2))
         for s in SEEDS_NOISE:
             out.append((True, s, True, 4, 2))
+        out.append((False, "init", True, 5, 2, HOSTNAME))
+        out.append((True, "init", True, 4, 2, HOSTNAME))
     return out
 
 
@@ -64,14 +71,17 @@ def run(tier: str, seed: int) -> Result:
     t_end = time.monotonic() + budget
     per_cfg = []
     cfgs = configs(tier)
-    for i, (noise, sd, login, depth, bound) in enumerate(cfgs):
+    for i, cfg in enumerate(cfgs):
+        noise, sd, login, depth, bound = cfg[:5]
+        addrs = cfg[5] if len(cfg) > 5 else ("10.0.0.1",)
         left = max(5.0, (t_end - time.monotonic()) / (len(cfgs) - i))
-        st = explore_parallel(factory, (noise, sd, login), depth=depth, bound=bound, budget_s=left, split_depth=1)
+        st = explore_parallel(factory, (noise, sd, login, addrs), depth=depth, bound=bound, budget_s=left, split_depth=1)
         per_cfg.append(
             {
                 "noise": noise,
                 "seed_state": sd,
                 "login": login,
+                "addresses": list(addrs),
                 "depth": depth,
                 "deviation_bound": bound,
                 "executions": st.executions,
@@ -84,11 +94,11 @@ def run(tier: str, seed: int) -> Result:
         )
         for v in st.violations:
             clause = v["violated"][0]
-            key = f"{'noise' if noise else 'plain'}:{sd}:{clause}"
+            key = f"{'noise' if noise else 'plain'}:{sd}{':hostname' if addrs != ('10.0.0.1',) else ''}:{clause}"
             res.add(
                 key,
                 clause,
-                {"harness": "lifecycle", "noise": noise, "seed_state": sd, "login": login, "choices": v["choices"],
+                {"harness": "lifecycle", "noise": noise, "seed_state": sd, "login": login, "addresses": list(addrs), "choices": v["choices"],
                  "violated": v["violated"], "observations": v["observations"]},
             )
         total.merge(st)
@@ -123,7 +133,7 @@ def run(tier: str, seed: int) -> Result:
 
 def replay(rp: dict[str, Any]) -> bool:
     d = rp["detail"]
-    h = factory(d["noise"], d["seed_state"], d["login"])
+    h = factory(d["noise"], d["seed_state"], d["login"], tuple(d.get("addresses") or ("10.0.0.1",)))
     w = h.fresh()
     try:
         for lab in d["choices"]:
